@@ -555,13 +555,20 @@ impl Pool for PoolImpl {
         let (slot, block_hash) = &block_id;
         let (parent_slot, parent_hash) = &parent_id;
 
+        // blocks of already decided (and pruned) slots are no longer relevant
+        if *slot < self.first_unpruned_slot() {
+            return;
+        }
+
         let finalization_event = self
             .finality_tracker
             .add_parent(block_id.clone(), parent_id.clone());
-        let new_parents_ready = self
-            .parent_ready_tracker
-            .handle_finalization(finalization_event);
-        self.send_parent_ready_events(new_parents_ready).await;
+        self.handle_finalization(finalization_event).await;
+
+        // registering the parent may have decided (and pruned) this block's slot
+        if *slot < self.first_unpruned_slot() {
+            return;
+        }
 
         self.slot_state(*slot).notify_parent_known(block_hash);
         if let Some(parent_state) = self.slot_states.get(parent_slot)
